@@ -372,6 +372,42 @@ fn c05_post(plan: &mut LPlan, seed: u64) {
         plan.horizon_ms = tb + 1_500;
         plan.actions.sort_by_key(|a| a.t);
     }
+    // Four links; a low-index link is stall-gated and holds probe copies while a higher-index link
+    // carries; a reload drops the two other links at once; the receiver has gone quiet, so the
+    // packets stay outstanding, and a forged NAK range names a few hundred of them.
+    if plan.n_links == 4 && r.chance(0.35) {
+        let tb = plan.horizon_ms.max(4_000);
+        let gated = r.below(2) as usize;
+        let keep_hi = 2 + r.below(2) as usize;
+        plan.cfg.stall_guard = true;
+        plan.cfg.stall_min_in_flight = *r.pick(&[1, 2, 4]);
+        plan.cfg.stall_ack_stale_ms = *r.pick(&[500, 1000]);
+        plan.cfg.conn_timeout_ms = 15_000;
+        let span = seq_span(plan);
+        let base = ((plan.client.start_seq as u64 + span) & 0x7FFF_FFFF) as u32;
+        let pps = *r.pick(&[600u32, 1000]);
+        plan.actions.push(TimedAction { t: tb, kind: Action::Burst { n: pps * 5, pps, size_lo: 200, size_hi: 700, stride: 1 } });
+        plan.actions.push(TimedAction { t: tb + 300, kind: Action::Blackhole { link: gated, up: true, down: true, on: true } });
+        // the other two links die too, so that the stream sits on keep_hi
+        for l in 0..4 {
+            if l != gated && l != keep_hi {
+                plan.actions.push(TimedAction { t: tb + 300, kind: Action::Blackhole { link: l, up: true, down: true, on: true } });
+            }
+        }
+        plan.actions.push(TimedAction { t: tb + 2_400, kind: Action::ReceiverMode { mode: "silent".into() } });
+        let text = format!("{}\n{}\n", crate::lsim::path_ip(gated), crate::lsim::path_ip(keep_hi));
+        plan.actions.push(TimedAction { t: tb + 2_900, kind: Action::Reload { text: Some(text) } });
+        for k in 0..3u64 {
+            let from = base.wrapping_add((pps as u64 * (2_500 + k * 150) / 1000) as u32) & 0x7FFF_FFFF;
+            let to = from.wrapping_add(220) & 0x7FFF_FFFF;
+            let mut b = vec![0x80u8, 0x03, 0, 0];
+            b.extend_from_slice(&(from | 0x8000_0000).to_be_bytes());
+            b.extend_from_slice(&to.to_be_bytes());
+            plan.actions.push(TimedAction { t: tb + 4_200 + k * 100, kind: Action::Inject { link: keep_hi, hex: hex(&b), delay: 0 } });
+        }
+        plan.horizon_ms = tb + 6_000;
+        plan.actions.sort_by_key(|a| a.t);
+    }
     // A stall-gated link holds probe copies (one in a hundred routed packets) while the carrier's
     // size-triggered flushes fail now and then: the carrier is reset, the receiver misses the batch
     // and NAKs it - the only remaining holder of some of those numbers is the probe link.
@@ -494,11 +530,14 @@ fn inject_arbitrary(plan: &mut LPlan, seed: u64, index: u64, count: u64) {
         // make some of them meaningful: timestamps near now, sequence numbers near the stream
         if ty == 0x9000 && len >= 10 && r.chance(0.7) {
             let now = plan.time_base_ms + t;
-            let ts = match r.below(5) {
+            let ts = match r.below(6) {
                 0 => 0,
                 1 => now + r.range(1, 5000),
                 2 => now.saturating_sub(r.range(10_001, 40_000)),
                 3 => now,
+                // far too old, but within 10 s of now in its low 32 bits (an echo truncated to 32
+                // bits and widened again, a flipped high bit)
+                4 => now.saturating_sub(r.range(1, 3) * (1u64 << 32) + r.range(1, 9_000)),
                 _ => now.saturating_sub(r.range(1, 900)),
             };
             b[2..10].copy_from_slice(&ts.to_be_bytes());
@@ -666,12 +705,14 @@ fn c14_post(plan: &mut LPlan, seed: u64) {
         b[0] = 0x90;
         b[1] = 0x00;
         if len >= 10 {
-            let ts = match r.below(7) {
+            let ts = match r.below(8) {
                 0 => 0,
                 1 => now + r.range(1, 20_000),
                 2 => now.saturating_sub(r.range(10_001, 60_000)),
                 3 => now.saturating_sub(10_000),
                 4 => now,
+                // weeks too old, yet within 10 s of now in its low 32 bits
+                5 => now.saturating_sub(r.range(1, 3) * (1u64 << 32) + r.range(1, 9_000)),
                 _ => now.saturating_sub(r.range(1, 1200)),
             };
             b[2..10].copy_from_slice(&ts.to_be_bytes());
@@ -753,6 +794,20 @@ fn c12l_post(plan: &mut LPlan, seed: u64) {
 fn sel_l_post(plan: &mut LPlan, seed: u64) {
     use crate::lsim::plan::{Action, TimedAction};
     c04_post(plan, seed);
+    {
+        // one run in four: enhanced -> classic -> enhanced at run time, inside the traffic (whatever
+        // the mode, the uplink that carried the last datagram is the previous uplink)
+        let mut r = crate::prng::Rng::new(seed ^ 0x30DE);
+        if r.chance(0.25) {
+            let (lo, hi) = traffic_window(plan);
+            let t1 = r.range(lo + 300, hi.max(lo + 301));
+            let t2 = t1 + r.range(300, 3_000);
+            for (t, m) in [(t1, "classic"), (t2, "enhanced")] {
+                plan.actions.push(TimedAction { t, kind: Action::Control { line: format!(r#"{{"jsonrpc":"2.0","method":"set_mode","params":{{"mode":"{m}"}}}}"#) } });
+            }
+            plan.actions.sort_by_key(|a| a.t);
+        }
+    }
     // one run in three: a reload inside the traffic that drops one link (often a low-index one)
     // and keeps the others, so that the survivors' positions shift under the hysteresis anchor
     let mut r = crate::prng::Rng::new(seed ^ 0x5E11);
